@@ -318,4 +318,49 @@ PROPS = {
              "nontrivial": lambda ev: ev.get("cls") != "uniform"},
         ],
     },
+    "C05": {
+        "level": "model_checking",
+        "claim": "Model level (Coverage.tla): the descent rule (full if shs(centre) <= shs(r - D), descend / partial if <= shs(r + D), else drop) "
+                 "is checked on every chain of nested cells and every point satisfying the C16 lemma |dist(point) - dist(centre)| <= D[level]: "
+                 "no cell holding a point of the cone is dropped and no full cell holds a point outside (113k states); the thresholds exactly "
+                 "as the crate computed them violate both (non-vacuity and model-level discovery of the r + D > pi and r < D defects). Code level: "
+                 "for seeded and TLC-generated cones (centre on every face class of small depths incl. seams and poles; radii at both sides of "
+                 "each of the 29 starting-depth thresholds, 1e-9, pi/2 +- eps, 130 deg, pi - eps, log-uniform; delta_depth 0..3) the bridge "
+                 "computes witness cells that provably contain a point of the cone and TLC checks that each is covered by the BMOC, possibly "
+                 "through an ancestor (digit-path prefix).",
+        "rule": "events = one cone query with its BMOC, witness cells (<= 120 distinct), worst excess of full cells, worst slack; non-trivial = all "
+                "distinct events",
+        "assumptions": ["TLC / SANY and the CommunityModules Json/IOUtils are correct",
+                        "the reference bridge (harness/src/geo.rs): C&R formulae, atan2-based angular distance, face classification; a witness is kept only if it is "
+                        "inside the cone by a margin (r (1 - 1e-7) - 3e-15) AND inside a cell by 2e-4 cell, so that its cell provably contains a point of the cone",
+                        "Dmax(depth) used for tightness is measured by the bridge over all cells of depths 0..5 and scaled (x1.02) deeper",
+                        "results larger than 300 cells are not traced"],
+        "stages": [
+            {"kind": "mc", "module": "MC_Coverage", "cfg": "MC_Coverage.cfg", "workers": 6},
+            {"kind": "gentrace", "module": "Gen_Faces", "cfg": {"quick": "Gen_Faces_cov.cfg", "thorough": "Gen_Faces.cfg"}, "scenario": "CONE",
+             "trace_module": "Trace_Bmoc", "trace_cfg": "Trace_Bmoc.cfg", "clauses": ["panic", "no_miss"]},
+            {"kind": "rec", "scenario": "CONE", "count": {"quick": 6000, "thorough": 150000}, "trace_module": "Trace_Bmoc", "trace_cfg": "Trace_Bmoc.cfg",
+             "shards": 10, "clauses": ["panic", "no_miss"]},
+        ],
+    },
+    "C06": {
+        "level": "model_checking",
+        "claim": "Same runs as C05, other clauses: the result is well formed at the requested depth and packed (no four full siblings, decided "
+                 "on digit paths), a radius >= pi yields exactly the 12 full base cells, every cell flagged full has its 4 vertices and 28 edge "
+                 "points (exact plane coordinates through the bridge) within the radius (tolerance 1e-12 + 1e-9 r), and every reported cell's centre "
+                 "is within r + 2 Dmax(depth of the cell). The model-level invariants Truthful and Tight of Coverage.tla hold for the intended rule.",
+        "rule": "events = as C05; non-trivial = all distinct events",
+        "assumptions": ["TLC / SANY and the CommunityModules Json/IOUtils are correct",
+                        "the reference bridge (harness/src/geo.rs): C&R formulae, atan2-based angular distance, face classification; a witness is kept only if it is "
+                        "inside the cone by a margin (r (1 - 1e-7) - 3e-15) AND inside a cell by 2e-4 cell, so that its cell provably contains a point of the cone",
+                        "Dmax(depth) used for tightness is measured by the bridge over all cells of depths 0..5 and scaled (x1.02) deeper",
+                        "results larger than 300 cells are not traced"],
+        "stages": [
+            {"kind": "mc", "module": "MC_Coverage", "cfg": "MC_Coverage.cfg", "workers": 6},
+            {"kind": "gentrace", "module": "Gen_Faces", "cfg": {"quick": "Gen_Faces_cov.cfg", "thorough": "Gen_Faces.cfg"}, "scenario": "CONE",
+             "trace_module": "Trace_Bmoc", "trace_cfg": "Trace_Bmoc.cfg", "clauses": ["dmax", "wellformed", "packed", "allsky", "full_truthful", "tight"]},
+            {"kind": "rec", "scenario": "CONE", "count": {"quick": 6000, "thorough": 150000}, "trace_module": "Trace_Bmoc", "trace_cfg": "Trace_Bmoc.cfg",
+             "shards": 10, "clauses": ["dmax", "wellformed", "packed", "allsky", "full_truthful", "tight"]},
+        ],
+    },
 }
